@@ -35,7 +35,7 @@ CHECKS["C16"] = dict(
              "Histories include removing a cell that members still reference by pointer and replace_cell of a cell that is no longer in the library (references are updated, nothing is inserted); cell names differ in length and share prefixes.",
     note="Trusted: TLC, the harness projection (pointer identity mapped to object ids). Domain: "
          "unique member names, replaced objects are not brought back, raw cells needed by other "
-         "raw cells are not replaced. Two initial library shapes (shared sub-cell, by-name refs to cells, raw cells and absent cells, two raw-cell files; and more raw cells than cells); tag t1 is the all-zero tag and tag maps are grown past their first capacity.",
+         "raw cells are not replaced. Three initial library shapes (shared sub-cell, by-name refs to cells, raw cells and absent cells, two raw-cell files; more raw cells than cells; and library 2 of a pair sharing its cells with another library that replaced members by same-named objects of the other kind, i.e. stale cross-kind designations that each replace_cell overload resolves by name); tag t1 is the all-zero tag, tag maps are grown past their first capacity and reached through retractions (displaced entries, set(k,k) / del re-packing).",
     design="4 C16")
 
 CHECKS["C11"] = dict(
@@ -146,7 +146,7 @@ CHECKS["C14"] = dict(
          "area, perimeter with and without repetition, and the group queries inside / all_inside / "
          "any_inside / contain_all / contain_any on palette groups and point lists including empty "
          "ones; every result is compared by TLC with the exact integer semantics. "
-             "Five polygons with long slanted edges (coordinates up to 31 units) are queried on every half-unit point of a 67 x 67 window, so that points exactly on a slanted edge far from its ends are decided; inside() is called twice with differently preset result buffers.",
+             "Five polygons with long slanted edges (coordinates up to 31 units) are queried on every half-unit point of a 67 x 67 window, so that points exactly on a slanted edge far from its ends are decided; inside() is called twice with differently preset result buffers. Seven palette polygons and their query windows are also displaced by (+-)(2^e + f/8), e in {27,40} (exact doubles): by the model's translation-invariance law the answers and measures must equal those of the undisplaced list.",
     note="Trusted: TLC, Base.tla arithmetic. Coordinates are half-integers (exact doubles); "
          "bounded-exhaustive, not all polygons.",
     design="4 C14")
